@@ -119,17 +119,14 @@ type driver struct {
 	only     string
 }
 
+// env returns the worker's environment.  Environments are created one after the other (never concurrently).
 func (d *driver) env(worker int) *env {
 	d.envMu.Lock()
-	e := d.envs[worker]
-	d.envMu.Unlock()
-	if e == nil {
-		e = newEnv()
-		d.envMu.Lock()
-		d.envs[worker] = e
-		d.envMu.Unlock()
+	defer d.envMu.Unlock()
+	if d.envs[worker] == nil {
+		d.envs[worker] = newEnv()
 	}
-	return e
+	return d.envs[worker]
 }
 
 // record merges one evaluation into the driver's counters (outcome counts are kept in per-worker shards to keep
